@@ -144,6 +144,12 @@ func (t *Thread) interpret(fn *ssa.Function, args []Value, env []Value) (result 
 	}
 	fr := &frame{fn: fn, locals: make(map[ssa.Value]Value, 16), env: env}
 	fr.harness = e.eng.isHarnessFn(fn)
+	// recover() is effective only directly inside the deferred function (depth 1), not in its callees
+	saveDD := t.deferDepth
+	if t.deferDepth > 0 {
+		t.deferDepth++
+	}
+	defer func() { t.deferDepth = saveDD }()
 	for i, p := range fn.Params {
 		fr.locals[p] = args[i]
 	}
@@ -164,8 +170,9 @@ func (t *Thread) interpret(fn *ssa.Function, args []Value, env []Value) (result 
 		if !ok {
 			panic(r) // engine-level abort: no defers
 		}
-		// Go panic: run remaining defers, then keep unwinding.
+		// Go panic: run remaining defers (one of them may recover), then keep unwinding.
 		t.fr = fr
+		recovered := false
 		for len(fr.defers) > 0 {
 			d := fr.defers[len(fr.defers)-1]
 			fr.defers = fr.defers[:len(fr.defers)-1]
@@ -174,15 +181,47 @@ func (t *Thread) interpret(fn *ssa.Function, args []Value, env []Value) (result 
 					if r2 := recover(); r2 != nil {
 						if gp2, ok := r2.(*goPanic); ok {
 							gp = gp2
+							recovered = false
 						} else {
 							panic(r2)
 						}
 					}
 				}()
+				saveRec, saveDepth, saveFlag := t.recoverable, t.deferDepth, t.recovered
+				if !recovered {
+					t.recoverable = gp
+				}
+				t.deferDepth = 1
+				t.recovered = false
 				t.callClosure(d.fv, d.args, d.pos)
+				if t.recovered {
+					recovered = true
+				}
+				t.recoverable, t.deferDepth, t.recovered = saveRec, saveDepth, saveFlag
 			}()
 		}
 		t.fr = savedFr
+		if recovered {
+			// the function returns normally: through its recover block when it has named results
+			result = nil
+			if fn.Recover != nil {
+				t.fr = fr
+				fr.block, fr.prev = fn.Recover, nil
+				func() {
+					for fr.block != nil {
+						t.runBlock(fr)
+					}
+				}()
+				t.fr = savedFr
+				result = fr.result
+			} else if fn.Signature.Results().Len() > 0 {
+				result = e.zero(fn.Signature.Results())
+				if fn.Signature.Results().Len() == 1 {
+					result = e.zero(fn.Signature.Results().At(0).Type())
+				}
+			}
+			return
+		}
 		panic(gp)
 	}()
 	fr.block = fn.Blocks[0]
@@ -616,6 +655,37 @@ func (t *Thread) binop(op token.Token, x, y Value, xt types.Type, pos token.Pos)
 				return ts.BV(32, uint64(e.eng.intern(e.eng.strOf(uint32(a.C))+e.eng.strOf(uint32(b.C)))))
 			}
 			return ts.UF("str_concat", StrSort, a, b)
+		case token.LSS, token.LEQ, token.GTR, token.GEQ:
+			if a.IsConst && b.IsConst {
+				x, y := e.eng.strOf(uint32(a.C)), e.eng.strOf(uint32(b.C))
+				switch op {
+				case token.LSS:
+					return ts.Bool(x < y)
+				case token.LEQ:
+					return ts.Bool(x <= y)
+				case token.GTR:
+					return ts.Bool(x > y)
+				default:
+					return ts.Bool(x >= y)
+				}
+			}
+			// symbolic strings: an uninterpreted strict order (the lexicographic order itself is not modelled)
+			lt := func(p, q *Term) *Term {
+				if p == q {
+					return ts.Bool(false)
+				}
+				return ts.UF("str_lt", BoolSort, p, q)
+			}
+			switch op {
+			case token.LSS:
+				return lt(a, b)
+			case token.GTR:
+				return lt(b, a)
+			case token.LEQ:
+				return ts.Not(lt(b, a))
+			default:
+				return ts.Not(lt(a, b))
+			}
 		}
 		e.unsupported("string binop " + op.String() + " at " + t.posOf(pos))
 	}
@@ -1274,9 +1344,40 @@ func (t *Thread) callBuiltinClosure(c *Closure, args []Value, pos token.Pos) Val
 	case "print", "println":
 		return nil
 	case "min", "max":
-		e.unsupported("min/max")
+		tys := c.recv.([]types.Type)
+		acc, ok := args[0].(*Term)
+		if !ok || acc.S.K != SBV {
+			e.unsupported("min/max on non-integer operands")
+		}
+		signed := isSigned(tys[0])
+		for _, a := range args[1:] {
+			b := a.(*Term)
+			var lt *Term
+			if signed {
+				lt = ts.BVCmp("bvslt", b, acc)
+			} else {
+				lt = ts.BVCmp("bvult", b, acc)
+			}
+			if name[len("builtin:"):] == "min" {
+				acc = ts.Ite(lt, b, acc)
+			} else {
+				acc = ts.Ite(lt, acc, b)
+			}
+		}
+		return acc
 	case "recover":
-		e.unsupported("recover() in interpreted code")
+		// meaningful only when called directly by a deferred function while its frame's caller panics
+		if t.recoverable != nil && t.deferDepth == 2 {
+			gp := t.recoverable
+			t.recoverable = nil
+			t.recovered = true
+			if gp.val != nil {
+				return gp.val
+			}
+			e.errSeq++
+			return Iface{t: engineErrPlain, v: &ErrObj{msg: e.freshStr("runtimeerr"), id: e.errSeq, name: "runtime error: " + gp.reason}}
+		}
+		return Iface{}
 	}
 	e.unsupported("builtin " + name)
 	return nil
